@@ -24,7 +24,7 @@ from vlib.core import site_of
 LEVEL = "other"
 EXPLANATION = "C20: route/layer census by abstract evaluation of router builders, guard polarity of the authentication layer, who-may-construct census for ClientIdentity, TLS/plain-HTTP arm exclusivity."
 CONFIGS_QUICK = ["Q"]
-CONFIGS_THOROUGH = ["Q", "P"]
+CONFIGS_THOROUGH = ["Q", "P", "N"]
 
 H = "net::server::handlers::"
 AUTH = "net::server::handlers::query::HelperAuthentication"
